@@ -100,6 +100,9 @@ def rule(*patterns: Union[str, Predicate]) -> Callable[[Any], ProductionRule]:
     def fwrapper(f: ProductionRule) -> ProductionRule:
         def wrapper(ts: datetime, *args: Artifact) -> Optional[Artifact]:
             res = f(ts, *args)
+            if res is not None and not res.isValid:
+                # e.g. 31.04. or 30.02.2019: matched but failed
+                return None
             if res is not None:
                 # upon a successful production, update the span
                 # information by expanding it to that of all args
